@@ -237,6 +237,7 @@ func init() {
 		Explain: "Decides consistency of the iterator family, not its arithmetic: (I1) NextValidity reports !mask[i], NextValid stops on unmasked and NextInvalid on masked elements, in FlatMaskedIterator and MultIterator; (I2) NextValid and NextInvalid of one type are identical up to exactly that polarity; (I3) every path through FlatIterator.Reset rewrites every field the stepping functions mutate (done, nextIndex, track); (I4) the vector fast path addresses track/shape/strides through veclikeDim, which is the first axis of length != 1, and no vector arm uses a literal axis; (I5) the multi-iterator's stride-block key is the digest of all stride elements; (I6) colMajorNDNext is ndNext with loop direction and done-axis reversed. " +
 			"Not decided - and this is the core of the property: that the odometer yields offsets in row-major coordinate order, the skip counts, coordinate tracking values. Round 7: (I11) every loop over the multi-iterator's blocks that steps/rewinds them treats all blocks on every iteration; (L0) AP.IsVectorLike - which selects the unit-step fast path - is 'vector-like shape and all strides one'. Round 11: (I15) every path that moves on from the last axis of an odometer walk has set done; (I14) every path that writes the direction flag rewinds; (I16) the direction setters of all iterator types write their own flag and rewind their own state. Round 13: (T7) the inverse shortcut of Dense.T composes the saved and the requested permutation; (IM) a masked tensor always gets a masked iterator. Round 17: (MX) index domains of the multi-iterator: per-tensor tables are never subscripted by a block number, the per-block table never by a tensor number.",
 		Run: func(rc *rules.RC) {
+			rules.MR(rc)
 			rules.MX(rc)
 			rules.IM(rc)
 			rules.T7(rc)
@@ -300,6 +301,7 @@ func init() {
 			"Not decided: counts, run/edge finders, fill values, that valid positions get the unmasked value of elementwise operations. Round 7: (O6) a recycled tensor header carries neither mask nor mask policy into its next life. Round 11: (MI) the edge and run finders answer through an iterator on every path; (MM) makeMask only where no mask exists; (TMask) the string transpose kernel moves the mask too. Round 13: (IM) IteratorFromDense returns the plain iterator only for a tensor found unmasked. Round 15: (MC) makeMask yields an all-false mask on every path; (O6p).",
 		Quick: []string{"default", "inplacetranspose"},
 		Run: func(rc *rules.RC) {
+			rules.MR(rc)
 			rules.MC(rc)
 			rules.O6p(rc)
 			rules.IM(rc)
